@@ -219,7 +219,8 @@ RECURSIVE Rich(_, _, _)
 Rich(T, env, f) ==
   CASE T.t = "obj" ->
          LET n == Len(T.ps)
-             val(i) == Take(Rich(T.ps[i].ty, env, f), 1) \cup Mem1(T.ps[i].ty, env, f)
+             \* a rich member of the property's type where there is one, else a plain member
+             val(i) == LET rm == Take(Rich(T.ps[i].ty, env, f), 1) IN IF rm # {} THEN rm ELSE Mem1(T.ps[i].ty, env, f)
              ok == \A i \in 1..n : val(i) # {}
              full == [i \in 1..n |-> P(T.ps[i].key, CHOOSE m \in val(i) : TRUE)]
              req == SelectSeq(full, LAMBDA p : \E i \in 1..n : T.ps[i].key = p.key /\ ~T.ps[i].opt)
